@@ -390,7 +390,11 @@ def statement (fuel : Nat) : PM Stmt := do
       | .defint => do let (a, b) ← varRange; pure (.defint (← col) a b)
       | .defsng => do let (a, b) ← varRange; pure (.defsng (← col) a b)
       | .defstr => do let (a, b) ← varRange; pure (.defstr (← col) a b)
-      | .delete => do let c ← col; let (a, b) ← lineNumberRange; pure (.delete c a b)
+      | .delete => do
+        let c ← col
+        -- a bare DELETE is refused here (fix D17); the runtime deletes whatever range it is given
+        if isEnd (← peek) then throw ((Error.mk' Code.illegalFunctionCall).inCol c.1 c.2)
+        let (a, b) ← lineNumberRange; pure (.delete c a b)
       | .dim => do let c ← col; let vs ← varList fuel fuel; pure (.dim c vs)
       | .end => do pure (.end (← col))
       | .erase => do
